@@ -92,6 +92,8 @@ pub fn menu() -> Vec<String> {
         "v = a::b", "v = ::a", "v = a::<b>", "v = 1 + 2", "v = [1, 2]", "v = [a, 1]", "v = [-1]", "v = 0..5", "v = ..", "v = |x| x", "v = (1, 2)", "v = -x", "v = !true",
         "v = {}", "v = unsafe { 1 }", "v = r#type", "v = m!(x)", "v = &x", "v = x as u8", "v = \"😬\"", "v = \"\\u{0}\"", "v = \"x²\"", "v = \"half½\"", "v = \"item①\"", "v = \"\\u{345}x\"", "v = \"é\"", "v = \"a b\"", "v = \"r#x\"", "v = \"'a\"", "v = \"_\"", "v = \"1x\"",
         "v = \"x-y\"", "v = \"x.y\"", "v = \"𝒳\"", "v = \"a\\u{200d}b\"", "v = \"fn\"", "v = \"Self\"", "v = \"$x\"", "v = \"#\"", "v = \"a::\"", "v = \"::\"", "v = \"<\"", "v = \"-\"", "v = \"- 1\"", "v = \"--1\"", "v = pub", "v = \"pub(crate)\"",
+        // byte strings / bytes that are not UTF-8, C strings, NUL and lone surrogates-by-escape
+        "v = b\"\\xff\"", "v = b\"caf\\xe9\"", "v = b'\\xff'", "v = b\"\"", "v = c\"x\"", "v = c\"\\xff\"", "v = \"\\0\"", "v = '\\0'", "v = br\"raw\"", "v = b\"\\xf0\\x28\\x8c\\x28\"",
     ]
     .iter()
     .map(|s| s.to_string())
